@@ -11,4 +11,3 @@ INVARIANT ImplFollowsRef
 INVARIANT ImplAgreesOffHazards
 INVARIANT HazardShape
 INVARIANT Publish
-
